@@ -22,7 +22,8 @@ static std::string op_brief(const OpResult& o)
 static Plan gen_c14(uint64_t seed, int64_t index, bool thorough)
 {
     Rng rng(hash_seed(seed, "C14", index));
-    std::vector<std::string> pk = keys_for({ "G1", "G2", "G3", "G4", "G6", "G7", "G10", "G11", "G13", "T1" }, false);
+    // xnode (throwing move) only takes part with small inputs: std::vector itself copies such elements when it grows
+    std::vector<std::string> pk = keys_for({ "G1", "G2", "G3", "G4", "G6", "G7", "G10", "G11", "G13", "G14", "G14", "T1" }, false, true);
     std::string key = rng.pick(pk);
     const ref::Model* m = model_for(grammar_of(key));
     OpShape sh;
@@ -71,7 +72,7 @@ static Plan gen_c14(uint64_t seed, int64_t index, bool thorough)
         op = make_sentence_op(rng, key, sh);
         for (int tries = 0; tries < 6 && int(op.toks.size()) < 1200; ++tries) op = make_sentence_op(rng, key, sh);
     }
-    if (rng.chance(1, 3)) op.api = API_CONTEXT_PARSE;
+    if (rng.chance(1, 3)) op.api = rng.chance(1, 3) ? API_CONTEXT_PARSE_TEMP : API_CONTEXT_PARSE;
     return single_op_plan("C14", seed, index, mode, op);
 }
 
@@ -157,7 +158,7 @@ static std::vector<Violation> case_c14(const Plan& p, CaseCtx& cx)
 static Plan gen_c16(uint64_t seed, int64_t index, bool thorough)
 {
     Rng rng(hash_seed(seed, "C16", index));
-    std::vector<std::string> pk = keys_for({ "G1", "G2", "G3", "G4", "G5", "G6", "G7", "G8", "G9", "G10", "G11", "G12", "G13", "T1" });
+    std::vector<std::string> pk = keys_for({ "G1", "G2", "G3", "G4", "G5", "G6", "G7", "G8", "G9", "G10", "G11", "G12", "G13", "G14", "T1" });
     std::string key = rng.pick(pk);
     const ref::Model* m = model_for(grammar_of(key));
     OpShape sh;
@@ -173,7 +174,7 @@ static Plan gen_c16(uint64_t seed, int64_t index, bool thorough)
     if (k < 35) mode = "valid";
     else if (k < 75) { mode = "token_faults"; add_token_faults(op, rng, rng.range(1, 3), *m); }
     else { mode = "byte_faults"; add_byte_faults(op, rng, rng.range(1, 2), m); }
-    if (rng.chance(1, 4)) op.api = API_CONTEXT_PARSE;
+    if (rng.chance(1, 3)) op.api = rng.chance(1, 2) ? API_CONTEXT_PARSE_TEMP : API_CONTEXT_PARSE;
     if (m->g.custom_lexer && rng.chance(1, 4)) op.lex_fail_call = int64_t(rng.below(op.toks.size() + 1));
     return single_op_plan("C16", seed, index, mode, op);
 }
@@ -318,7 +319,7 @@ static std::vector<Violation> case_c16(const Plan& p, CaseCtx& cx)
             std::vector<int> traced, called;
             const ref::GrammarSpec& g = oC.model->g;
             for (const TraceLine& t : tl)
-                if (t.k == TraceLine::REDUCE && t.n >= 0 && size_t(t.n) < g.rules.size() && g.rules[size_t(t.n)].ftor != ref::F_DEFAULT) traced.push_back(int(t.n));
+                if (t.k == TraceLine::REDUCE && t.n >= 0 && size_t(t.n) < g.rules.size() && (g.rules[size_t(t.n)].ftor == ref::F_PLAIN || g.rules[size_t(t.n)].ftor == ref::F_CTX)) traced.push_back(int(t.n));
             for (const auto& rd : oC.rec.reds) called.push_back(rd.rule);
             if (traced != called)
             {
